@@ -11,7 +11,7 @@ from harness.runner import run_property
 from harness.trace import Run, result_str
 
 PROP = "C06"
-THEOREMS = ["Lbfgsb.C06.restore_pairs", "Lbfgsb.C06.restore_keeps_most_recent", "Lbfgsb.C06.restart_same_memory"]
+THEOREMS = ["Lbfgsb.C06.restore_pairs", "Lbfgsb.C06.restore_keeps_most_recent", "Lbfgsb.C06.restore_roundtrip"]
 MODULES = ["LbfgsbVerif.Props.C06"]
 
 
